@@ -520,6 +520,17 @@ class Rewriter:
     # ---- body ----
     def body(self, text, refs, self_type, is_const):
         cfg = self.cfg
+        # R10f: range-for over a modelled container -> index loop
+        ranges = cfg.get('ranges', {})
+        def _rf(m):
+            cont = m.group(4).strip()
+            if cont not in ranges:
+                raise ExtractError('range-for over %r: no container model' % cont)
+            ety, size_fn, at_fn = ranges[cont]
+            name = m.group(3)
+            self.fire('R10f')
+            return 'for (size_t _i_%s = 0; _i_%s < %s(&%s); _i_%s++) { %s %s = %s(&%s, _i_%s);' % (name, name, size_fn, cont, name, ety, name, at_fn, cont, name)
+        text = re.sub(r'for\s*\(\s*(const\s+)?auto\s*(&|\*)?\s*(\w+)\s*:\s*([^)]+)\)\s*\{', _rf, text)
         toks = tokenize(text)
         toks = self.r6_logs(toks)
         toks = self.r4_casts(toks)
